@@ -30,6 +30,20 @@ type c15Case struct {
 func init() { register("C15", "exploration", runC15, replayC15) }
 
 func sizeToken(form, lo, hi string, spaced bool) string {
+	return sizeTokenPad(form, lo, hi, spaced, 0)
+}
+
+// sizeTokenPad writes the bounds with pad leading zeros (a bound is a decimal number: [010] is ten).
+func sizeTokenPad(form, lo, hi string, spaced bool, pad int) string {
+	if pad > 0 {
+		z := strings.Repeat("0", pad)
+		if lo != "" {
+			lo = z + lo
+		}
+		if hi != "" {
+			hi = z + hi
+		}
+	}
 	sp := ""
 	if spaced {
 		sp = " "
@@ -91,7 +105,12 @@ func c15Literal(c *ctx, cs c15Case) {
 	st := &smltext.NumStyle{R: r, Variety: cs.Style%3 == 0}
 	body := smltext.ItemToks(st, it, false)
 	// insert the declaration after the type token
-	decl := smltext.B(sizeToken(cs.Form, cs.Lo, cs.Hi, cs.Style%4 == 1))
+	pad := 0
+	if cs.Style%7 == 3 {
+		pad = 1 + cs.Style%2
+		c.Class("zero-padded-bounds")
+	}
+	decl := smltext.B(sizeTokenPad(cs.Form, cs.Lo, cs.Hi, cs.Style%4 == 1, pad))
 	toks := []smltext.Tok{smltext.KW("S1F1", smltext.Header), smltext.KW("H->E", smltext.Header)}
 	declIdx := len(toks) + 2
 	toks = append(toks, body[0], body[1], decl)
@@ -165,7 +184,12 @@ func c15Literal(c *ctx, cs c15Case) {
 }
 
 func c15ASCIIVar(c *ctx, cs c15Case) {
-	decl := sizeToken(cs.Form, cs.Lo, cs.Hi, cs.Style%4 == 1)
+	pad := 0
+	if cs.Style%7 == 3 {
+		pad = 1 + cs.Style%2
+		c.Class("zero-padded-bounds")
+	}
+	decl := sizeTokenPad(cs.Form, cs.Lo, cs.Hi, cs.Style%4 == 1, pad)
 	text := "S2F3 W H<-E\n<L[2]\n  <A" + decl + " TEXT>\n  <U1 1>\n>\n."
 	if cs.Style%2 == 1 {
 		text = "S2F3 W H<-E <A " + decl + " TEXT> ."
@@ -364,7 +388,7 @@ func runC15(c *ctx) {
 		c15Eval(c, cs)
 	})
 	c15Direct(c)
-	c.Required = []string{"literal/within", "literal/outside", "literal/form=n", "literal/form=a..b", "literal/form=a..", "literal/form=..b", "asciivar/fill-accepted", "asciivar/fill-refused", "asciivar/inverted-bounds", "direct-fill"}
+	c.Required = []string{"literal/within", "literal/outside", "literal/form=n", "literal/form=a..b", "literal/form=a..", "literal/form=..b", "asciivar/fill-accepted", "asciivar/fill-refused", "asciivar/inverted-bounds", "direct-fill", "zero-padded-bounds"}
 }
 
 func replayC15(c *ctx, raw json.RawMessage) {
